@@ -182,6 +182,8 @@ def ref_decode(payload, labelmsm=1):
         return ("ok", dec.run(), dec.off)
     except (SpecError, IndexError, KeyError) as e:
         return ("error", f"{type(e).__name__}: {e}", None)
+    except Exception as e:  # noqa  malformed definition table (not a dict / tuple shape): C10's WF obligation reports it
+        return ("error", f"definition table malformed: {type(e).__name__}: {e}", None)
 
 
 def real_decode(payload, labelmsm=1):
